@@ -262,7 +262,7 @@ class DebounceMonitor(Monitor):
 
 def jobs(tier):
     js = []
-    ns = (1, 2, 3, 5) if tier == "quick" else (1, 2, 3, 4, 5, 6, 7)
+    ns = (1, 2, 3, 5) if tier == "quick" else (1, 2, 3, 4, 5, 6, 7, 8, 9, 12)
     for n in ns:
         js.append((f"wait_for|const|{n}", wait_design("const", n), {"reset": 1, "start": 1}, ["busy", "done"], 2 * n + 8, lambda n=n: WaitMonitor(n, False, False)))
         js.append((f"Waiter.wait_for|const|{n}", wait_design("waiter", n), {"reset": 1, "start": 1}, ["busy", "done"], 2 * n + 8, lambda n=n: WaitMonitor(n, False, False)))
